@@ -296,7 +296,8 @@ PartialRerunOnlyFailed(Before, O, target) ==
 ParentMirrorsChild(D, O) ==
   O.pend.quiet => \A c \in Rng(O.wf) : (c.parent # "" /\ c.state \in Final /\ c.accepted) =>
      LET pt == By(Rng(O.tk), c.parent) IN
-       (D.tasks[pt.name].items = -1 /\ D.tasks[pt.name].retry = 0) => pt.state = c.state
+       \* (a parent task the operator SKIPPED keeps that state whatever its failed child says)
+       (D.tasks[pt.name].items = -1 /\ D.tasks[pt.name].retry = 0 /\ pt.state # "SKIPPED") => pt.state = c.state
 RootAndNamespace(O) ==
   \A c \in Rng(O.wf) : c.parent # "" =>
      LET pw == By(Rng(O.wf), By(Rng(O.tk), c.parent).wf) IN c.root = pw.root /\ c.ns = pw.ns /\ c.project = pw.project
